@@ -369,6 +369,8 @@ func (f *Frame) execBuiltin(instr ssa.Instruction, b *ssa.Builtin, c *ssa.CallCo
 		}
 		f.fail("cap of %s", typeKey(a.Typ))
 	case "append":
+		f.curCallArgs = args
+		f.anchorsAt("call", "append", st)
 		return f.execAppend(instr, args, st, rt)
 	case "copy":
 		return f.execCopy(instr, args, st, rt)
@@ -443,13 +445,15 @@ func (f *Frame) execAppend(instr ssa.Instruction, args []*V, st *State, rt types
 			cont = sto(olds, s.Sl.Len, sel(oldt, t.Sl.Off))
 		} else if t.Sl.Len.S == "1" {
 			cont = u.fresh("appended", inner)
-			u.assume(st, T{fmt.Sprintf("(forall ((i!q Int)) (! (=> (and (<= 0 i!q) (< i!q %s)) (= (select %s i!q) (select %s (+ %s i!q)))) :pattern ((select %s i!q))))",
-				s.Sl.Len.S, cont.S, olds.S, s.Sl.Off.S, cont.S), SBool})
+			iq := T{"i!q", SInt}
+			u.assume(st, T{fmt.Sprintf("(forall ((i!q Int)) (! (=> (and (<= 0 i!q) (< i!q %s)) (= (select %s i!q) (select %s %s))) :pattern ((select %s i!q))))",
+				s.Sl.Len.S, cont.S, olds.S, u.sidx(s.Sl.Off, iq).S, cont.S), SBool})
 			u.assume(st, eq(sel(cont, s.Sl.Len), sel(oldt, t.Sl.Off)))
 		} else {
 			cont = u.fresh("appended", inner)
-			u.assume(st, T{fmt.Sprintf("(forall ((i!q Int)) (! (and (=> (and (<= 0 i!q) (< i!q %s)) (= (select %s i!q) (select %s (+ %s i!q)))) (=> (and (<= %s i!q) (< i!q %s)) (= (select %s i!q) (select %s (+ %s (- i!q %s)))))) :pattern ((select %s i!q))))",
-				s.Sl.Len.S, cont.S, olds.S, s.Sl.Off.S, s.Sl.Len.S, nl.S, cont.S, oldt.S, t.Sl.Off.S, s.Sl.Len.S, cont.S), SBool})
+			iq := T{"i!q", SInt}
+			u.assume(st, T{fmt.Sprintf("(forall ((i!q Int)) (! (and (=> (and (<= 0 i!q) (< i!q %s)) (= (select %s i!q) (select %s %s))) (=> (and (<= %s i!q) (< i!q %s)) (= (select %s i!q) (select %s %s)))) :pattern ((select %s i!q))))",
+				s.Sl.Len.S, cont.S, olds.S, u.sidx(s.Sl.Off, iq).S, s.Sl.Len.S, nl.S, cont.S, oldt.S, u.sidx(t.Sl.Off, app(SInt, "-", iq, s.Sl.Len)).S, cont.S), SBool})
 		}
 		u.write(st, key, arr, func(h T) T { return sto(h, arr, cont) }, arrSort(SInt, inner))
 	}
